@@ -500,29 +500,51 @@ Proof.
   - apply Nat.eqb_eq in S. subst. split; [lia|]. apply packed_vec_inj. lia.
   - apply Nat.eqb_eq in S. subst. split; [lia|]. apply packed_vec_inj. lia.
 Qed.
-Lemma resize_full_owner_ok W h v m n keep W1 v1 ro ld :
-  v_h v = HFull ro ld -> resize W h v m n keep = Some (W1, v1) -> (m, n) <> (v_nr v, v_nc v) ->
+Lemma resize_full_owner_ok rp W h v m n keep W1 v1 ro ld :
+  v_h v = HFull ro ld -> resize rp W h v m n keep = Some (W1, v1) -> (m, n) <> (v_nr v, v_nc v) ->
   v_nr v1 = m /\ v_nc v1 = n /\ wfv v1 /\ injv v1.
 Proof.
   unfold resize. intros Hh H D. destruct ((m =? v_nr v) && (n =? v_nc v)) eqn:E.
   { apply andb_true_iff in E. destruct E as [E1 E2]. apply Nat.eqb_eq in E1, E2. subst. congruence. }
-  bd; try discriminate. inversion H; subst. rewrite Hh. cbn [resize_helper].
+  bd; try discriminate. inversion H; subst. rewrite Hh. unfold resize_helper, leaves_vector_helper. rewrite andb_false_r.
   split; [reflexivity|]. split; [reflexivity|]. split; [destruct ro; exact Logic.I|].
   destruct ro; [apply (packed_full_inj _ true m n) | apply (packed_full_inj _ false m n)].
+Qed.
+(** with the repair (patches/C25_owner_vector_helper_resize.diff) EVERY owner that is given a two-dimensional size ends up
+    packed, well-formed and injectively addressed, whatever helper it had *)
+Lemma resize_owner_ok_repaired W h v m n keep W1 v1 :
+  resize true W h v m n keep = Some (W1, v1) -> (m, n) <> (v_nr v, v_nc v) -> m <> 1 -> n <> 1 ->
+  v_nr v1 = m /\ v_nc v1 = n /\ wfv v1 /\ injv v1.
+Proof.
+  unfold resize. intros H D M N. destruct ((m =? v_nr v) && (n =? v_nc v)) eqn:E.
+  { apply andb_true_iff in E. destruct E as [E1 E2]. apply Nat.eqb_eq in E1, E2. subst. congruence. }
+  bd; try discriminate. inversion H; subst. unfold resize_helper, leaves_vector_helper.
+  apply Nat.eqb_neq in M, N. rewrite M, N. cbn [andb negb].
+  destruct (v_h v) as [[|] ld| r | r s]; cbn [v_nr v_nc v_h];
+    (split; [reflexivity|]; split; [reflexivity|]; split; [exact Logic.I|]);
+    first [apply (packed_full_inj _ true m n) | apply (packed_full_inj _ false m n)].
 Qed.
 (** ... but an owner that carries a VECTOR helper (a Matrix_ deep-copied from a one-column or one-row block: createDeepCopy_
     of a vector helper is a vector helper) keeps it when it is given a two-dimensional size: REFUTED.  Witness:
     Matrix A(3,3); Matrix B = A(0,1,3,1); B = T with T = [11 12; 13 14]  ==>  B reads [11 13; 13 12]. *)
-Definition run_w (c : bool) (k : nat) (ops : list wop) : world := fold_left (fun W o => fst (wstep_total c k W o)) ops empty_world.
+Definition run_w (c : bool) (k : nat) (rp : bool) (ops : list wop) : world := fold_left (fun W o => fst (wstep_total c k rp W o)) ops empty_world.
 Definition refut_ops : list wop :=
   [WNew SMat 3 3 1; WView 0 (OBlock 0 1 3 1); WCopy 1 false; WAssign 2 2 2 [[11]; [12]; [13]; [14]]]%Z.
 Lemma assign_to_copied_column_block_refuted :
-  exists v, getview (run_w false 1 refut_ops) 2 = Some v /\ v_owner v = true /\ v_nr v = 2 /\ v_nc v = 2 /\
-            velems false (run_w false 1 refut_ops) v = [[11]; [13]; [13]; [12]]%Z /\
-            velems false (run_w false 1 refut_ops) v <> [[11]; [12]; [13]; [14]]%Z /\ ~ wfv v.
+  exists v, getview (run_w false 1 false refut_ops) 2 = Some v /\ v_owner v = true /\ v_nr v = 2 /\ v_nc v = 2 /\
+            velems false (run_w false 1 false refut_ops) v = [[11]; [13]; [13]; [12]]%Z /\
+            velems false (run_w false 1 false refut_ops) v <> [[11]; [12]; [13]; [14]]%Z /\ ~ wfv v.
 Proof.
   eexists. split; [vm_compute; reflexivity|]. split; [reflexivity|]. split; [reflexivity|]. split; [reflexivity|].
   split; [vm_compute; reflexivity|]. split; [vm_compute; discriminate|]. unfold wfv; cbn. lia.
+Qed.
+
+Lemma assign_to_copied_column_block_repaired :
+  exists v, getview (run_w false 1 true refut_ops) 2 = Some v /\ v_nr v = 2 /\ v_nc v = 2 /\ wfv v /\
+            velems false (run_w false 1 true refut_ops) v = [[11]; [12]; [13]; [14]]%Z.
+Proof.
+  eexists. split; [vm_compute; reflexivity|]. split; [reflexivity|]. split; [reflexivity|]. split; [exact Logic.I|].
+  vm_compute; reflexivity.
 Qed.
 
 (** ** non-vacuity: the hypotheses of the theorems above hold on concrete, non-trivial inputs *)
@@ -533,11 +555,11 @@ Example ex_chain_runs : exists v, run_ops ex_ops ex_root = Some v /\ v_nr v = 2 
 Proof. vm_compute. eexists. repeat split. Qed.
 Example ex_root_ok : wfv ex_root /\ injv ex_root.
 Proof. apply new_owner_ok. reflexivity. Qed.
-Example ex_world_inb : let W := run_w false 1 [WNew SMat 4 5 1%Z] in getview W 0 = Some ex_root /\ inb W ex_root.
+Example ex_world_inb : let W := run_w false 1 false [WNew SMat 4 5 1%Z] in getview W 0 = Some ex_root /\ inb W ex_root.
 Proof.
   cbv zeta. split; [vm_compute; reflexivity|]. split; [vm_compute; lia|].
   intros i j [A B]. change (v_nr ex_root) with 4 in A. change (v_nc ex_root) with 5 in B.
-  assert (L : length (nth (v_buf ex_root) (w_bufs (run_w false 1 [WNew SMat 4 5 1%Z])) []) = 20) by (vm_compute; reflexivity).
+  assert (L : length (nth (v_buf ex_root) (w_bufs (run_w false 1 false [WNew SMat 4 5 1%Z])) []) = 20) by (vm_compute; reflexivity).
   rewrite L. unfold vaddr, ex_root, new_view; cbn. lia.
 Qed.
 Example ex_sym_index : map (fun ij => sym_index 4 (fst ij) (snd ij)) [(0,0);(1,1);(2,2);(3,3);(1,0);(2,0);(3,0);(2,1);(3,1);(3,2)] = seq 0 10.
